@@ -55,6 +55,9 @@ fn make_side(kind: Kind, second: bool) -> Side {
     admin.exec(&node, "use-db t tok");
     admin.exec(&node, "set secret plain");
     admin.exec(&node, "set $secret onedollar");
+    // plain keys that sort before and after the `$$` block (listing code may rely on the order)
+    admin.exec(&node, "set !first plain");
+    admin.exec(&node, "set ~last plain");
     admin.exec(&node, "create-user bob bt");
     if kind == Kind::UserFull {
         admin.exec(&node, "set-permissions bob rwix *");
